@@ -88,6 +88,16 @@ CHECKS = {
         design_ref="DESIGN.md 7/C14",
         note="TLC; non-negative bounds; call sites are covered by the cluster properties",
         technique="TLA+ clause spec + algorithm model (TLC exhaustive); real outputs validated by TLC"),
+    "C16": dict(
+        category="model_checking",
+        text="Cascade.tla defines the resolution (Resolve) and its clauses; the real findBestStreamFrom is evaluated on every "
+             "stream_from map of 1-3 cascade replicas (chains, cycles, self-references, HA references) x ancestor health x "
+             "current source, under a watchdog, and TLC judges each result incl. exact agreement with Resolve; cluster runs "
+             "record every CHANGE SOURCE on a cascade replica with ground-truth GTID sets (guarded move) and every list "
+             "write / promotion with cascade replicas present (never counted).",
+        design_ref="DESIGN.md 7/C16",
+        note="registered names only (dangling references are C20's); health as the code defines 'reasonable lag'",
+        technique="TLA+ resolution spec; TLC validation of real resolutions and of recorded re-pointing events"),
     "C17": dict(
         category="model_checking",
         text="OfflineMode.tla states the per-pass policy (enable only above the threshold with a writable master and within "
